@@ -228,7 +228,11 @@ func zzH_C12_discardRemote() {
 	// established by Run: an OK task has a location and is assigned there
 	b.locations[task] = mach
 	mach.tasks[task] = struct{}{}
-	zzRunErr = zzMakeErr(zz.AnyIntIn("rpcErr", 0, zzErrKinds-1))
+	zzDiscardErr = zzMakeErr(zz.AnyIntIn("rpcErr", 0, zzErrKinds-1))
+	defer func() { zzDiscardErr = nil }()
+	if zzDiscardErr != nil {
+		zz.Reach("the discard RPC fails")
+	}
 	before := task.state
 	b.Discard(context.Background(), task)
 	_, owned := mach.tasks[task]
